@@ -112,7 +112,19 @@ type base struct {
 	caseVal    interface{}
 }
 
-func (b *base) Sub(fp string, nontrivial bool) { b.r.Case(fp, nontrivial) }
+func (b *base) Sub(fp string, nontrivial bool) {
+	b.r.Case(fp, nontrivial)
+	if nontrivial && b.caseVal != nil {
+		cv := b.caseVal
+		b.r.Sample(func() interface{} {
+			var v interface{} = cv
+			if s, ok := cv.(summarizer); ok {
+				v = s.Summary()
+			}
+			return map[string]interface{}{"execution": fp[max(0, len(fp)-40):], "case": v}
+		})
+	}
+}
 func (b *base) SkipOuter()                     { b.skipOuter = true }
 
 func (b *base) FP(parts ...interface{}) {
